@@ -324,6 +324,7 @@ class LazyEvaluatedKernelTensor(LinearOperator):
             return super()._permute_batch(*dims)
         return self.evaluate_kernel()._permute_batch(*dims)
 
+    @recall_grad_state
     def _transpose_nonbatch(self):
         return self.__class__(
             self.x2,
